@@ -120,6 +120,19 @@ class G:
     def pick(self, xs):
         return xs[self.r.randrange(len(xs))]
 
+    # two streams: "valid" scripts contain only calls that cannot trap (boundary values included) and run to
+    # completion; "malformed" scripts have a valid prefix and hostile calls only at the end (a trap ends the run)
+    def begin(self, n_ops):
+        self.op_i = 0
+        self.stream = "valid" if self.r.random() < 0.55 else "malformed"
+        self.hostile_from = n_ops + 1000 if self.stream == "valid" else self.r.randrange(max(0, n_ops - 2), max(n_ops, 1))
+        self.valid = self.hostile_from > 0
+        return n_ops
+
+    def tick(self):
+        self.valid = self.op_i < self.hostile_from
+        self.op_i += 1
+
     def chance(self, p):
         return self.r.random() < p
 
@@ -128,6 +141,10 @@ class G:
 
     def ptr(self, L, M, valid=0.7, region=None):
         """pointer for an access of L bytes in a memory of M bytes"""
+        if getattr(self, "valid", False) and L <= M:
+            if self.chance(0.12):
+                return M - L          # exact fit at the end of memory
+            valid = 1.0
         if self.chance(valid) and L <= M:
             lo, hi = region if region else (DATA, DEST + 300)
             if L <= hi - lo:
@@ -140,6 +157,8 @@ class G:
         return self.pick([0, 1, 2, self.r.randrange(3, 65), 255, 256, 511, 512, 513, 1024, 1025] + list(extra))
 
     def hostile_len(self, M):
+        if getattr(self, "valid", False):
+            return self.pick([0, 1, 17, 300, 512, 2000])
         return self.pick([65535, 65536, 65537, M, M + 1, U32 - 1, 1 << 31, 16384, 16385, self.r.randrange(U32)])
 
     # -- script skeleton
@@ -178,7 +197,14 @@ class G:
 
     def finish(self, sc, tag, ret=None):
         sc["tags"].append(tag)
+        sc["tags"].append(getattr(self, "stream", "malformed"))
         self.dist[tag] = self.dist.get(tag, 0) + 1
+        self.dist["stream_" + getattr(self, "stream", "malformed")] = self.dist.get("stream_" + getattr(self, "stream", "malformed"), 0) + 1
+        if getattr(self, "stream", "") == "valid" and ret is None:
+            sc["ret"] = 0 if (sc["ver"] == 1 or sc["kind"] == "init") else sc["ret"]
+            if self.chance(0.1):
+                sc["ret"] = self.pick([-1, -(1 << 31), -42])
+            return sc
         if ret is not None:
             sc["ret"] = ret
         elif self.chance(0.12):
@@ -193,7 +219,8 @@ class G:
         if kind == "recv":
             sc["state0"] = pattern(self.pick([0, 1, 100, 16383, 16384, 5000]), 13, 5)
         cur = len(sc["state0"])
-        for _ in range(self.r.randrange(3, 9)):
+        for _ in range(self.begin(self.r.randrange(3, 9))):
+            self.tick()
             op = self.pick(["write_state", "write_state", "load_state", "resize_state", "state_size"])
             if op == "state_size":
                 self.call(sc, op)
@@ -206,16 +233,25 @@ class G:
                 L = self.pick([0, 1, 10, 300, 16384, 16385, self.r.randrange(2000), self.hostile_len(M)]) if self.chance(0.8) else self.hostile_len(M)
                 p = self.ptr(L, M, 0.75, (DATA, DATA + 256) if L <= 256 else None)
                 off = self.pick([0, cur, max(cur - 1, 0), cur + 1, 16383, 16384, 16385, U32 - 1, self.r.randrange(cur + 1)])
+                if self.valid:
+                    off = self.pick([0, cur, max(cur - 1, 0), self.r.randrange(cur + 1)])
                 self.call(sc, op, p, L, off)
                 if op == "write_state" and off <= cur and p + L <= M:
                     cur = max(cur, min(off + L, 16384))
         self.dump(sc, self.pick(["log", "state"]))
-        return self.finish(sc, "v0_state")
+        if sc["kind"] == "recv":
+            sc["ret"] = -1 if self.chance(0.5) else 0
+            if sc["ret"] == 0:
+                sc["calls"].insert(0, ("accept", []))      # a receive must return a valid action index
+                sc["calls"] = [(f, [(a[0], a[1] + 1) if isinstance(a, tuple) else a for a in args]) for f, args in sc["calls"]]
+        return self.finish(sc, "v0_state", sc["ret"])
 
     def logs(self, ver):
         kind = self.pick(["init", "recv"])
         sc = self.base(ver, kind)
         M = sc["M"]
+        self.begin(0)
+        self.stream, self.valid = "valid", True
         if self.chance(0.3):      # many logs: the P4 count limit
             n = self.pick([63, 64, 65, 66, 70])
             for i in range(n):
@@ -231,11 +267,12 @@ class G:
                         self.call(sc, "log_event", DATA + i, 1)
             self.dump(sc, "state" if ver == 0 else "entry")
             return self.finish(sc, "v%d_manylogs" % ver, 0 if kind == "init" or ver == 1 else -3)
-        for _ in range(self.r.randrange(2, 8)):
+        for _ in range(self.begin(self.r.randrange(2, 8))):
+            self.tick()
             L = self.pick([0, 1, 17, 511, 512, 513, 514, 1024, self.hostile_len(M)])
             self.call(sc, "log_event", self.ptr(L, M, 0.75), L)
         self.dump(sc, "log")
-        return self.finish(sc, "v%d_logs" % ver)
+        return self.finish(sc, "v%d_logs" % ver, (0 if ver == 1 or kind == "init" else -2) if self.stream == "valid" else None)
 
     def params(self, ver):
         kind = self.pick(["init", "recv"])
@@ -251,10 +288,13 @@ class G:
             if self.chance(0.5):
                 self.call(sc, "invoke", 0, ADDR, 40)
                 sc["resp"].append({"k": "rej", "code": -5, "data": pattern(7, 29, 2), "upd": self.chance(0.3)})
-        for _ in range(self.r.randrange(3, 9)):
+        for _ in range(self.begin(self.r.randrange(3, 9))):
+            self.tick()
             which = self.pick(["size", "section", "section", "policy"])
             L = self.pick([0, 1, 5, plen, plen + 1, 1024, 1025, 3000, self.hostile_len(M)])
             off = self.pick([0, 1, max(plen - 1, 0), plen, plen + 1, U32 - 1, (U32 - L) % U32, self.r.randrange(plen + 2)])
+            if self.valid:
+                off = 0     # every parameter (incl. responses and the policy) has at least 0 bytes
             p = self.ptr(L, M, 0.8, (DATA, DEST + 340) if L <= 600 else None)
             if ver == 0:
                 if which == "size":
@@ -272,7 +312,7 @@ class G:
                 else:
                     self.call(sc, "get_policy_section", p, L, off)
         self.dump(sc, "log")
-        return self.finish(sc, "v%d_params" % ver)
+        return self.finish(sc, "v%d_params" % ver, (0 if ver == 1 or kind == "init" else -2) if self.stream == "valid" else None)
 
     def v0_actions(self):
         kind = "recv" if self.chance(0.9) else "init"
@@ -280,8 +320,16 @@ class G:
         M = sc["M"]
         maxp = 1024 if sc["pv"] == 4 else 65535
         n_act = 0
-        for _ in range(self.r.randrange(2, 9)):
+        self.begin(self.r.randrange(2, 9))
+        if self.stream == "valid":
+            sc["kind"] = kind = "recv"
+        for _ in range(self.op_i, 100):
+            if self.op_i >= (self.hostile_from + 2 if self.stream == "malformed" else 8) or len(sc["calls"]) > 8:
+                break
+            self.tick()
             op = self.pick(["accept", "simple_transfer", "send", "send", "combine_and", "combine_or"])
+            if self.valid and n_act == 0:
+                op = "accept"
             if op == "accept":
                 self.call(sc, op)
                 n_act += 1
@@ -293,16 +341,23 @@ class G:
                 nm = self.pick([(NAME_OK, 6), (NAME_OK, 6), (NAME_OK, 6), (NAME_NODOT, 5), (NAME_BADCH, 6), (NAME_LONG, 101),
                                 (NAME_LONG, 100), (NAME_OK, 0), (self.ptr(6, M, 0.0), 6), (NAME_OK, self.hostile_len(M))])
                 L = self.pick([0, 1, 100, maxp - 1, maxp, maxp + 1, 1024, 1025, 65535, 65536, self.hostile_len(M)])
+                if self.valid:
+                    nm = self.pick([(NAME_OK, 6), (NAME_LONG, 100)])
+                    L = self.pick([0, 1, 100, 1023, 1024, maxp])
                 p = self.ptr(L, M, 0.8)
                 self.call(sc, op, self.r.randrange(U64), self.pick([0, U64 - 1]), nm[0], nm[1], self.r.randrange(U64), p, L)
                 n_act += 1
             else:
                 l = self.pick([0, max(n_act - 1, 0), n_act, n_act + 1, U32 - 1])
                 r = self.pick([0, max(n_act - 1, 0), n_act, U32 - 1])
+                if self.valid:
+                    l, r = self.r.randrange(n_act), self.r.randrange(n_act)
                 self.call(sc, op, l, r)
                 n_act += 1
         self.dump(sc, "log")
         ret = self.pick([0, max(n_act - 1, 0), max(n_act - 1, 0), n_act, n_act + 5, -1, -7])
+        if self.stream == "valid":
+            ret = self.pick([0, max(n_act - 1, 0), max(n_act - 1, 0), -7])
         return self.finish(sc, "v0_actions", ret)
 
     def ctx(self, ver):
@@ -315,20 +370,26 @@ class G:
             fs += [("get_receive_entrypoint", 4), ("get_receive_entrypoint_size", None)]
         else:
             fs += [("accept", None), ("state_size", None)]
-        for _ in range(self.r.randrange(3, 9)):
+        init_only, recv_only = {"get_init_origin"}, {"get_receive_invoker", "get_receive_owner", "get_receive_self_address",
+                                                      "get_receive_sender", "get_receive_self_balance", "get_receive_entrypoint",
+                                                      "get_receive_entrypoint_size", "accept"}
+        for _ in range(self.begin(self.r.randrange(3, 9))):
+            self.tick()
             f, L = self.pick(fs)
+            if self.valid and ((kind == "init" and f in recv_only) or (kind == "recv" and f in init_only)):
+                f, L = "get_slot_time", None
             if L is None:
                 self.call(sc, f)
             else:
                 self.call(sc, f, self.ptr(L, M, 0.6, (DEST, DEST + 340)))
         self.dump(sc, "log")
-        return self.finish(sc, "v%d_ctx" % ver)
+        return self.finish(sc, "v%d_ctx" % ver, (0 if ver == 1 or kind == "init" else -2) if self.stream == "valid" else None)
 
     # -- v1 scenarios
     KEYS = [(DATA, 0), (DATA, 1), (DATA, 2), (DATA, 3), (DATA + 1, 1), (DATA + 1, 2), (DATA + 7, 4), (DATA + 2, 1)]
 
     def key(self, sc):
-        if self.chance(0.85):
+        if self.chance(0.85) or getattr(self, "valid", False):
             return self.pick(self.KEYS)
         L = self.pick([0, 1, 64, 65, 200, self.hostile_len(sc["M"])])
         return (self.ptr(L, sc["M"], 0.3), L)
@@ -353,8 +414,9 @@ class G:
         if kind == "recv":
             self.init_kv(sc)
         eh, ih = [], []
-        n = self.r.randrange(5, 16)
+        n = self.begin(self.r.randrange(5, 16))
         for _ in range(n):
+            self.tick()
             op = self.pick(["create", "create", "lookup", "lookup", "delete", "write", "write", "read", "read", "size", "resize",
                             "iter", "next", "next", "ksize", "kread", "idel", "dprefix", "invoke_upd"])
             if op in ("create", "lookup"):
@@ -397,6 +459,8 @@ class G:
 
     def v1_bigentry(self):
         """MAX_ENTRY_SIZE boundary: only with budgets far below the cost of a 1 GiB allocation"""
+        self.begin(0)
+        self.stream, self.valid = "valid", True
         sc = self.base(1, "init")
         j = self.call(sc, "state_create_entry", DATA, 2)
         self.call(sc, "state_entry_resize", ("s", j), self.pick([1 << 30, (1 << 30) - 1, (1 << 30) + 1]))
@@ -411,10 +475,13 @@ class G:
         sc = self.base(1, kind)
         M = sc["M"]
         cur = 0
-        for _ in range(self.r.randrange(2, 8)):
+        for _ in range(self.begin(self.r.randrange(2, 8))):
+            self.tick()
             L = self.pick([0, 1, 100, 2000, 16384, 16385, 30000, self.hostile_len(M)])
             p = self.ptr(L, M, 0.8, (DATA, DATA + 256) if L <= 256 else None)
             off = self.pick([0, cur, cur + 1, max(cur - 1, 0), 16383, 16384, 16385, U32 - 1, (U32 - L) % U32])
+            if self.valid:
+                off = self.pick([0, cur, max(cur - 1, 0)])
             self.call(sc, "write_output", p, L, off)
             if off <= cur and p + L <= M:
                 cur = max(cur, off + L if sc["pv"] != 4 else min(off + L, 16384))
@@ -436,23 +503,32 @@ class G:
         if self.chance(0.4):
             eh.append(self.call(sc, "state_create_entry", DATA, 2))
             self.call(sc, "log_event", DATA, 3)
-        for _ in range(self.r.randrange(1, 6)):
+        for _ in range(self.begin(self.r.randrange(1, 6))):
+            self.tick()
             tag = self.pick([0, 1, 1, 1, 2, 3, 4, 5, 6, 7, 8, 9, 10, U32 - 1])
+            if self.valid:
+                sc["kind"] = "recv"
+                tag = self.pick([0, 1, 1] + ([2, 3, 4] if pv >= 5 else []) + ([5, 6] if pv >= 6 else []) + ([7, 8] if pv >= 7 else []))
             if tag == 1:
                 plen = self.pick([0, 1, 50, 1023, 1024, 1025, maxp, maxp + 1]) if self.chance(0.8) else self.r.randrange(0, 3000)
                 if plen > 3000 and sc["pages"] == 1:
                     plen = self.pick([1024, 1025])
                 name = self.pick([b"recv", b"", b"x" * 99, b"y" * 100, b"ab\x7fcd", b"bad name", b"ok.with.dots"])
+                if self.valid:
+                    plen = self.pick([0, 1, 50, 1023, 1024])
+                    name = self.pick([b"recv", b"", b"x" * 99, b"ok.with.dots"])
                 pay = self.call_payload(plen, name, extra=self.pick([b"", b"zz"]))
-                if self.chance(0.3):
+                if self.chance(0.3) and not self.valid:
                     pay = pay[:self.pick([0, 7, 15, 16, 17, 18, 18 + min(plen, 5), max(len(pay) - 9, 0), len(pay) - 1])]
                 sc["data"].append([pay_at, pay])
                 L = self.pick([len(pay), len(pay), len(pay), max(len(pay) - 1, 0), len(pay) + 1, self.hostile_len(M)])
-                start = pay_at if self.chance(0.9) else self.ptr(L, M, 0.0)
+                if self.valid:
+                    L = len(pay)
+                start = pay_at if (self.chance(0.9) or self.valid) else self.ptr(L, M, 0.0)
                 pay_at += len(pay) + 8
             else:
                 want = {0: 40, 2: 32, 3: 16, 4: 0, 5: 32 + self.pick([0, 1, 100]), 6: 32, 7: 16, 8: 16}.get(tag, 8)
-                L = want if self.chance(0.75) else self.pick([0, want + 1, max(want - 1, 0), 31, 32, 33, self.hostile_len(M)])
+                L = want if (self.chance(0.75) or self.valid) else self.pick([0, want + 1, max(want - 1, 0), 31, 32, 33, self.hostile_len(M)])
                 start = self.ptr(L, M, 0.8, (DATA, DATA + 200))
             self.call(sc, "invoke", tag, start, L)
             r = self.pick(["ok", "okd", "okd", "rej", "fail", "default"])
@@ -483,13 +559,14 @@ class G:
             self.call(sc, "upgrade", self.ptr(32, M, 0.6))
             sc["resp"].append({"k": "fail", "n": 7, "upd": False} if self.chance(0.5) else {"k": "ok", "bal": "1", "data": None, "upd": False})
         self.dump(sc, self.pick(["log", "rv"]))
-        return self.finish(sc, "v1_invoke", self.pick([0, 0, 0, 3, -9]))
+        return self.finish(sc, "v1_invoke", self.pick([0, 0, 0, 3, -9]) if sc["kind"] == "recv" else 0)
 
     def v1_crypto(self):
         sc = self.base(1, self.pick(["init", "recv"]))
         M = sc["M"]
         nh = 0
-        for _ in range(self.r.randrange(1, 5)):
+        for _ in range(self.begin(self.r.randrange(1, 5))):
+            self.tick()
             f = self.pick(["hash_sha2_256", "hash_sha3_256", "hash_keccak_256", "verify_ed25519_signature",
                            "verify_ecdsa_secp256k1_signature"])
             if f.startswith("hash"):
@@ -504,10 +581,14 @@ class G:
                 L = self.pick([0, 1, 100, 3000, self.hostile_len(M)])
                 sig = self.pick([SIG, SIG, SIG, M - 63, U32 - 1, U32 - 64])
                 pk = self.pick([PK, PK, M - 32, M - 31, U32 - 32])
+                if self.valid:
+                    sig, pk = SIG, self.pick([PK, M - 32])
                 self.call(sc, f, pk, sig, self.ptr(L, M, 0.8), L)
             else:
                 sig = self.pick([SIG, SIG, M - 63, U32 - 1])
                 pk = self.pick([PK, PK, M - 33, M - 32, U32 - 33])
+                if self.valid:
+                    sig, pk = SIG, self.pick([PK, M - 33])
                 self.call(sc, f, pk, sig, self.ptr(32, M, 0.75))
         self.dump(sc, "log")
         return self.finish(sc, "v1_crypto")
@@ -515,6 +596,8 @@ class G:
     def v0_oversized_state(self):
         """precondition violated by the CALLER (state > 16 KiB handed to invoke_receive): the model
         predicts FAULT (a Rust slice panic); not a contract-reachable situation, recorded separately"""
+        self.begin(0)
+        self.stream, self.valid = "malformed", False
         sc = self.base(0, "recv", pages=1)
         sc["state0"] = pattern(20000, 3, 3)
         self.call(sc, "write_state", DATA, 4, 17000)
@@ -522,6 +605,8 @@ class G:
         return self.finish(sc, "v0_oversized_state_precondition", -1)
 
     def mixed(self, ver):
+        self.begin(0)
+        self.stream, self.valid = "malformed", False
         kind = self.pick(["init", "recv"])
         sc = self.base(ver, kind)
         M = sc["M"]
